@@ -196,7 +196,16 @@ mod private {
     pub fn unchecked_direct(cx: &mut Cx) {
         let alpha: Vec<char> = "abcdeixy1ж".chars().collect();
         let mut lens: Vec<usize> = vec![];
-        match cx.rng.below(3) {
+        if cx.tier == Tier::Miri {
+            // under the interpreter a 50-letter distance costs ~10 s: one pass over the growth steps
+            lens = match cx.idx % 3 {
+                0 => vec![3, 21, 2, 33, 1],
+                1 => vec![0, 20, 22, 5, 51, 4],
+                _ => vec![34, 1, 21, 0, 33],
+            };
+        }
+        match if cx.tier == Tier::Miri { 99 } else { cx.rng.below(3) } {
+            99 => {}
             0 => {
                 // ascending past each growth step
                 let start = cx.rng.below(6);
